@@ -36,6 +36,7 @@ import ast, contextlib, io, json, linecache, os, random, re, signal, sys, time, 
 from harness.common import lean, pya
 from harness.props import c12_gen
 
+WIDEN_FACTOR = 3  # the anchor-/obligation-widened quick run stays well inside the time limit
 PROP = "C12"
 LEAN_PROP = "PyaModel.Props.C12"
 NAMESPACE = "Pya.C12"
